@@ -743,7 +743,16 @@ pub fn project_wallet(w: &WalletH, opts: &ProjOpts) -> Value {
 			let stored = t.stored_tx.as_ref().map(|f| {
 				Path::new(&w.dir).join("saved_txs").join(f).exists()
 			});
-			project_tx(t, opts, stored)
+			let mut v = project_tx(t, opts, stored);
+			// the excess itself is random per execution; whether the recorded excess is that of the
+			// stored transaction's kernel is not (final vs. lock-time value)
+			if let (Some(e), Some(id), Some(true)) = (t.kernel_excess, t.tx_slate_id, stored) {
+				v["excess_is_stored_kernel"] = match catch(|| w.stored_tx(&id)) {
+					Ok(Ok(Some(tx))) => json!(tx.kernels().first().map(|k| k.excess == e)),
+					_ => json!("unreadable"),
+				};
+			}
+			v
 		})
 		.collect();
 	let mut out_v: Vec<Value> = outs.iter().map(|o| project_output(o, opts)).collect();
